@@ -7,6 +7,7 @@ import (
 	"net"
 	"os"
 	"path/filepath"
+	"runtime"
 	"sync/atomic"
 	"time"
 
@@ -299,9 +300,33 @@ func genReal(seed int64, idx int, profile string, poll int) scen.E2E {
 	return p
 }
 
-// runRealE2E runs the shared end-to-end scenario on a real network.
+// runRealE2E runs the shared end-to-end scenario on a real network. A
+// scenario that does not come back at all within three minutes of real time
+// (a stuck Close, a stalled dependency) ends the child: its stacks are saved,
+// the case is reported inconclusive and the process exits, so that one stuck
+// scenario cannot hold a check for the whole job timeout.
 func runRealE2E(p scen.E2E) *scen.Outcome {
-	return scen.RunE2EOn(rEnv{}, p, func(cfg rig.Config, seed int64) (*rig.Rig, error) { return startReal(cfg, seed) })
+	res := make(chan *scen.Outcome, 1)
+	go func() {
+		res <- scen.RunE2EOn(rEnv{}, p, func(cfg rig.Config, seed int64) (*rig.Rig, error) { return startReal(cfg, seed) })
+	}()
+	select {
+	case o := <-res:
+		return o
+	case <-time.After(3 * time.Minute):
+		if dir := os.Getenv("VT_WORK"); dir != "" {
+			buf := make([]byte, 1<<22)
+			buf = buf[:runtime.Stack(buf, true)]
+			os.MkdirAll(dir, 0o755)
+			os.WriteFile(fmt.Sprintf("%s/stuck-%d.stacks", dir, p.Run), buf, 0o644)
+		}
+		mon.Emit(mon.Result{T: "case", Engine: "real", Case: fmt.Sprintf("scenario %d", p.Run), Verdict: mon.Inconclusive,
+			What: "scenario did not return within 3 minutes of real time (" + p.String() + "); the remaining cases of this child were not run"})
+		mon.Done("real")
+		mon.Close()
+		os.Exit(0)
+		return nil
+	}
 }
 
 func realEngine(a Args) {
